@@ -216,6 +216,23 @@ CLAIMS = {
              "the variable's bytes of the map value for every format. Bounded in hierarchy shapes and formats; "
              "fixed-point conversion is left to C02.",
         note=PYVC_TRUST + "; " + BPFVC_TRUST + "; host little endian; mmap and per-CPU layout are kernel contracts"),
+    "C09": dict(
+        engine="pyvc+bpfvc", category="other", design_ref="DESIGN.md section 4 C09",
+        technique="contract-based deductive verification: lemmas over the real HashGlobalVarDesc.__set__/__get__, "
+                  "HashMap.load/globalVar against a ghost kernel hash map; byte-level contracts of "
+                  "Member.__get__/__set__/fmt_addr/__set_name__; bpfvc on generated programs for hash reads/writes "
+                  "and Dict update/lookup",
+        text="Hash variables: distinct one-byte keys; after loading every cell holds its default; a value written "
+             "from Python is read back unchanged and writing one variable leaves the other's cell alone (all "
+             "values of the formats); the generated program reads the cell of the variable's key with its format "
+             "and writes the whole 8-byte cell. Dict: Structure members are packed, read and written at "
+             "data[relative_addr : +size] on the Python side and addressed at the same relative offset by the "
+             "program; a generated update stores the value structure under exactly the key bytes Python builds, "
+             "members at the Python offsets; a generated lookup runs the body with the stored member when the key "
+             "is present and the Else block otherwise. Bounded: two hash variables, one Key/Value definition with "
+             "constant keys, four generated programs.",
+        note=PYVC_TRUST + "; " + BPFVC_TRUST + "; kernel hash-map behaviour assumed; Python-side TheDict methods "
+             "(buffer sizes) are under C10; x-format hash variables and delete/iteration are not covered"),
     "C10": dict(
         engine="pyvc", category="other", design_ref="DESIGN.md section 4 C10",
         technique="contract-based deductive verification: preconditions at call sites. The kernel ABI of the bpf() "
